@@ -183,6 +183,27 @@ def gen_cyclic(rng, kind):
         blk([((xs[i].idx, 0, w), e)])
     blk([((out.idx, 0, w), R(xs[rng.randrange(k)]))])
     expect = 'value'
+  elif kind == 'structwhole':
+    # a false loop in which every value that travels between the blocks of the group is a WHOLE bitstruct signal (copied
+    # with `s.m @= s.x`): the stability test of the group then compares struct objects, whose fields are updated in place
+    flds = [('a', rng.choice([1, 2, 4])), ('b', rng.choice([2, 4, 8]))]
+    if rng.random() < 0.4: flds.append(('c', ('L', (2,), rng.choice([1, 4]))))
+    st = rtlgen.StructT(f'SW{d.uid}', flds)
+    sin = d.new_sig('', 'sin', 0, 'in', st)
+    n_ = rng.randint(2, 4)
+    ms = [d.new_sig('', f'm{i}', 0, 'wire', st) for i in range(n_)]
+    sout = d.new_sig('', 'sout', 0, 'out', st)
+    W_ = st.width
+    # block A: m0 = sin and, in the same block, the last hop (sout = m_{n-1}); blocks Bi: m_i = m_{i-1}
+    asgs = [((ms[0].idx, 0, W_), R(sin)), ((sout.idx, 0, W_), R(ms[-1]))]
+    if rng.random() < 0.5: asgs.reverse()
+    order = list(range(1, n_)); rng.shuffle(order)
+    pre = rng.random() < 0.5
+    if pre: blk(asgs)
+    for i in order: blk([((ms[i].idx, 0, W_), R(ms[i - 1]))])
+    if not pre: blk(asgs)
+    blk([((out.idx, 0, w), ('b', 'xor', w, R(i0), R(i1)))])
+    expect = 'value'
   elif kind == 'hostloop':
     # a false loop whose signals live in two (or three) child components: the watched variables of the SCC then belong to
     # several host components (the generated super-block compares them host by host).  Each child computes b = a ^ k; the
@@ -279,7 +300,7 @@ def run(ck):
   n = 250 if ck.tier == 'quick' else 8000
   lines, meta = [], []
   for _ in range(n):
-    kind = rng.choice(['false', 'false', 'conv', 'ring', 'ring', 'div', 'divcond', 'bigring', 'structloop', 'hostloop', 'hostloop'])
+    kind = rng.choice(['false', 'false', 'conv', 'ring', 'ring', 'div', 'divcond', 'bigring', 'structloop', 'hostloop', 'hostloop', 'structwhole'])
     d, expect = gen_cyclic(rng, kind)
     src = d.source()
     ck.extra_cov.setdefault('sample_design_source', src)
@@ -349,7 +370,7 @@ def run(ck):
       if kind == 'div' and status == 'ok':
         ck.violation('divergent-loop-returned', {'flow': flow}, {'source': src, 'flow': flow, 'inputs': cycles, 'signals': [s_.path for s_ in d.sigs]},
                      {'trace': trace[:2], 'oracle': 'a loop with no stable assignment must raise UpblkCyclicError'})
-      if kind in ('false', 'conv', 'ring', 'bigring', 'structloop', 'hostloop') and status != 'ok':
+      if kind in ('false', 'conv', 'ring', 'bigring', 'structloop', 'hostloop', 'structwhole') and status != 'ok':
         ck.violation('convergent-loop-rejected', {'flow': flow, 'kind': kind}, {'source': src, 'flow': flow, 'inputs': cycles, 'signals': [s_.path for s_ in d.sigs]}, {'status': status})
       lines.append(rtlgen.model_sim_line(d, entries, [], cycles))
       meta.append(('sim', d, src, flow, entries, cycles, trace, status))
